@@ -145,3 +145,32 @@ package ldb
 //@   requires it != nil && it.b != nil && it.b.tx != nil && it.b.pathLen >= 0 && it.iter != nil && (!it.b.tx.readOnly ==> it.batchIter != nil)
 //@   requires ghostb("iterKeysInBucket", it)
 //@   nopanic off
+
+// ---- C11 (lemma level): a prefix read inside a write transaction reports, for a committed key that the
+// transaction has overwritten, the pending value (read-your-writes); Clear only touches keys under the bucket's own
+// path followed by the separator (so a sibling bucket whose name merely extends this one is not cleared).
+//@ func joinBucketPath
+//@   trusted
+//@   pure
+//@   ensures len(arr) == 1 ==> result == arr[0]
+//@   ensures len(arr) == 2 ==> result == arr[0] + "_" + arr[1]
+
+//@ func (*levelBucket).GetByPrefix
+//@   props C11
+//@   nopanic off
+//@   requires wfBucketTx(b)
+//@   modifies *
+//@   only Get Key Value Next innerKey NewIterator BytesPrefix Release
+//@   dead returns 1
+//@   loop#1 invariant wfBucketTx(b)
+//@   at "entry := &db.Entry{ Key: make([]byte, len(key)), Value: make([]byte, len(value)), }"#1 assert[C11] !b.tx.readOnly && isPut(b.tx.b, strOf(iter.Key())) ==> sameSlice(value, b.tx.b.puts[strOf(iter.Key())].data)
+
+//@ func (*levelBucket).Clear
+//@   props C11
+//@   nopanic off
+//@   requires wfBucketTx(b)
+//@   modifies *
+//@   only joinBucketPath
+//@   loop#1 skip
+//@   loop#2 skip
+//@   at "iter := b.tx.l.ldb.NewIterator(util.BytesPrefix(prefix), nil)" assert[C11] strOf(prefix) == b.path + "_"
